@@ -2289,6 +2289,16 @@ impl<'a> UserModel<'a> {
 
     // **** Private methods ****** //
 
+    /// Lengths of the undo stack, the redo stack and the outgoing diff queue.
+    #[cfg(feature = "verif_hooks")]
+    pub fn verif_depths(&self) -> (usize, usize, usize) {
+        (
+            self.history.undo_stack.len(),
+            self.history.redo_stack.len(),
+            self.send_queue.len(),
+        )
+    }
+
     pub(crate) fn push_diff_list(&mut self, diff_list: DiffList) {
         self.send_queue.push(QueueDiffs {
             r#type: DiffType::Redo,
